@@ -141,6 +141,25 @@ def run(ctx):
             if r[1] != exp:
                 ctx.report('gate-wrong-after-other-keyset', '%s/%s: %s on %s inputs under the %d-bit key set decrypts to %d, expected %d, after the same thread evaluated gates under another key set (position %d of the sequence 80,128,80,128 x %d gates); the same case alone is right' % (backend, build, g, kind, lam, r[1], exp, pos, per),
                            {'sequence': [x[1][:200000] for x in seq[:pos + 1]], 'gate': g, 'kind': kind, 'expected_bit': exp, 'observed_bit': r[1], 'backend': backend, 'build': build, 'history': True}); break
+        # (iv) the result object is one of the inputs (in-place use, as in the tutorial's comparator): same truth table
+        al = []
+        for lam in (128, 80):
+            for (line, exp, g, kind) in hist[lam]:
+                t = line.split(' ', 12); gi = int(t[11])
+                for alias in ((1, 2, 3) if gi == 13 else (1, 2) if gi < 10 else (1,)):
+                    al.append((lam, ' '.join(t[:11] + [str(gi + 100 * alias)] + t[12:]), exp, g, kind, alias))
+        if not thorough:
+            mux = [x for x in al if x[3] == 'MUX']; oth = [x for x in al if x[3] != 'MUX']
+            al = rng.sample(mux, min(24, len(mux))) + rng.sample(oth, min(24, len(oth)))
+        al.sort(key=lambda x: -x[0])
+        ao = vlib.run_lines(exe, [x[1] for x in al], timeout=7200)
+        for (lam, line, exp, g, kind, alias), o in zip(al, ao):
+            ctx.count((backend, build, 'alias', line[:4000])); ncases += 1
+            if o.startswith('CRASH'): ctx.report('gate-crash', '%s/%s: %s with the result object = input %s died: %s' % (backend, build, g, 'abc'[alias - 1], o[:80]), {'case': line[:200000], 'backend': backend, 'build': build}); continue
+            r = ints(o)
+            if r[1] != exp:
+                ctx.report('gate-wrong-inplace', '%s/%s, %d-bit set: %s on %s inputs with the result object = input %s decrypts to %d, expected %d' % (backend, build, lam, g, kind, 'abc'[alias - 1], r[1], exp),
+                           {'case': line[:200000], 'gate': g, 'kind': kind + ', result = input ' + 'abc'[alias - 1], 'expected_bit': exp, 'observed_bit': r[1], 'backend': backend, 'build': build})
     ctx.cov['gate_cases'] = ncases
     ctx.hypotheses['max |modulus-switch drift| on non-edge cases (units of 2^-32; gate margin is 2^28)'] = maxdrift
     ctx.hypotheses['max |output phase - (+-1/8)| (units of 2^-32; must stay below 2^29)'] = maxerr
